@@ -15,6 +15,18 @@ from .llir import (IntT, FloatT, PtrT, ArrT, VecT, StructT, NamedT, FuncT, VoidT
 from .domains import (RealDom, FPDom, ConcDom, Unsupported, Bits, q, fpval, FP64, RNE)
 
 
+STD_BASES = {
+    '_ZTISt13runtime_error': ['_ZTISt9exception'], '_ZTISt11logic_error': ['_ZTISt9exception'],
+    '_ZTISt12domain_error': ['_ZTISt11logic_error'], '_ZTISt12out_of_range': ['_ZTISt11logic_error'],
+    '_ZTISt16invalid_argument': ['_ZTISt11logic_error'], '_ZTISt12length_error': ['_ZTISt11logic_error'],
+    '_ZTISt9bad_alloc': ['_ZTISt9exception'], '_ZTISt8bad_cast': ['_ZTISt9exception'],
+    '_ZTISt14overflow_error': ['_ZTISt13runtime_error'], '_ZTISt11range_error': ['_ZTISt13runtime_error'],
+    '_ZTISt15underflow_error': ['_ZTISt13runtime_error'], '_ZTISt17bad_function_call': ['_ZTISt9exception'],
+    '_ZTISt12system_error': ['_ZTISt13runtime_error'], '_ZTINSt8ios_base7failureB5cxx11E': ['_ZTISt12system_error'],
+    '_ZTISt20bad_array_new_length': ['_ZTISt9bad_alloc'],
+}
+
+
 class Ptr:
     __slots__ = ('rid', 'off')
 
@@ -1110,6 +1122,7 @@ class Executor:
         raise Unsupported('ordering of pointers into different regions')
 
     opaque_may_be_null = False
+    opaque_calls = False
 
     def cast(self, st, op, v, fty, tty):
         fty = self.m.resolve(fty)
@@ -1388,6 +1401,8 @@ class Executor:
         out = [tname]
         g = self.m.globals.get(tname)
         if g is None or g.init is None:
+            for b in STD_BASES.get(tname, ()):
+                out += self.tinfo_bases(st, b)
             return out
         init = g.init
         if init[0] != 'agg':
@@ -1661,11 +1676,21 @@ class Executor:
             kn = self.rid_names.get(v.rid)
             if kn and kn[0] == 'func':
                 return kn[1]
+        if self.opaque_calls:
+            return None
         raise Unsupported('indirect call through %r in %s' % (v, self.where(st)))
 
     def do_call(self, st, fr, I):
         name = self.callee_name(st, fr, I)
         args = [self.ev(st, fr, aty, av) for aty, av, _ in I['args']]
+        if name is None:
+            # virtual call on an object of unknown dynamic type (e.g. std::exception::what()):
+            # arbitrary result, no side effect on the modelled memory
+            st.event('opaque-virtual-call', where=self.where(st))
+            rt = self.m.resolve(I['ty'])
+            r = None if isinstance(rt, VoidT) else self.fresh_of(st, rt, 'vcall')
+            self.finish_call(st, fr, I, r)
+            return
         h = self.ufs.get(name) or self.stubs.get(name)
         if h is None and name.startswith('llvm.'):
             h = self.intrinsic(name)
